@@ -65,5 +65,22 @@ def run(ctx, rep):
                         n += 1
                         rep.ob('X-transition', 'diff=s-int:' + key, rd == s - int(bool(s and c)), 'r_diff != s - r_int', reason='table-row')
         rep.rows_compared += n
+    # coincident edges: Intersection and Union keep the same-transition edges and must give them the same transition (both operands
+    # change the same way across the edge); the table itself is compared with the oracle as in C02/C14
+    trc = bt.check_trans(ctx, rep, 'T-trans-coincident', ['SameTransition', 'DifferentTransition'])
+    if trc:
+        n = 0
+        for subj in (False, True):
+            for io in (False, True):
+                for oio in (False, True):
+                    ri = trc.get(('Intersection', 'SameTransition', subj, io, oio))
+                    ru = trc.get(('Union', 'SameTransition', subj, io, oio))
+                    if ri is None or ru is None:
+                        continue
+                    n += 1
+                    rep.ob('X-transition', 'same-transition:int=union:is_subject=%d,in_out=%d,other_in_out=%d' % (subj, io, oio), ri == ru,
+                           'a shared edge with both interiors on the same side must get the same transition from Intersection and Union '
+                           '(%s / %s)' % (ri, ru), reason='table-row')
+        rep.rows_compared += n
     fillrules.check_fill_queue(ctx, rep, rules=('B-acc', 'X-opsites', 'W-iter'))
     sweeprules.check_break(ctx, rep)
